@@ -754,7 +754,9 @@ func (x *Exec) convert(st *State, fr *Frame, in *ssa.Convert) Val {
 		x.D.DeclareFun("bytes.ofstr", []string{SStr}, SBytes)
 		r := x.freshVal(st, "bytes", to)
 		st.assume(Eq(App(SInt, "s.len", r.T), App(SInt, "str.len_", v.T)))
-		st.assume(Eq(x.bytesOf(st, r), App(SBytes, "bytes.ofstr", v.T)))
+		bo := App(SBytes, "bytes.ofstr", v.T)
+		st.assume(Eq(x.bytesOf(st, r), bo))
+		x.injective1(st, "bytes.ofstr", SStr, SBytes, v.T, bo)
 		st.assume(Not(Eq(App(SRef, "s.base", r.T), TNull)))
 		return r
 	case fs == SInt && ts == SStr:
